@@ -7,6 +7,8 @@
 #include "integ_common.hpp"
 
 #include "libphysica/Integration.hpp"
+#include "libphysica/Statistics.hpp"
+#include <random>
 
 #ifndef LIBPHYSICA_VERIF
 #error "the C14 driver needs the seed hook (build with -DLIBPHYSICA_VERIF)"
@@ -396,6 +398,46 @@ static bool parse_blob(const std::string& s, uint64_t& rb, uint64_t& tr, uint64_
 {
 	return sscanf(s.c_str(), "%" SCNx64 " %" SCNx64 " %" SCNu64, &rb, &tr, &n) == 3;
 }
+// what else a process may have done with the library before the observed integration: the uniform sampler used directly with other intervals (an
+// isotropic direction: phi in [0,2pi), cos(theta) in [-1,1) - seeded change C14-r6m1 kept the distribution object of the last interval), and a
+// Miser integration that its caller left through an exception thrown by the integrand (seeded change C14-r6m2 tracked Miser's recursion depth
+// without unwinding it)
+static void other_library_use(int kind, unsigned seed)
+{
+	if(kind & 1)
+	{
+		std::mt19937 gen(seed);
+		double acc = 0;
+		for(int i = 0; i < 3; i++)
+		{
+			acc += Sample_Uniform(gen, 0.0, 2 * M_PI);
+			acc += Sample_Uniform(gen, -1.0, 1.0);
+		}
+		(void) acc;
+	}
+	if(kind & 2)
+	{
+		struct Stop
+		{
+		};
+		long calls = 0, stop_at = 100 + (long) (seed % 900);
+		std::function<double(std::vector<double>&, const double)> f = [&](std::vector<double>& x, const double) -> double {
+			if(++calls == stop_at)
+				throw Stop();
+			return x[0] * x[1];
+		};
+		std::vector<double> reg = {0.0, 0.0, 1.0, 2.0};
+		set_seed(seed);
+		StreamCapture cap;
+		try
+		{
+			(void) Integrate_MC(f, reg, 5000, std::string("Miser"));
+		}
+		catch(const Stop&)
+		{
+		}
+	}
+}
 static void case_history(Rng& rng, uint64_t index)
 {
 	Call T = gen_call(rng, rng.irange(1, 3), (int) (index % 3));
@@ -422,7 +464,9 @@ static void case_history(Rng& rng, uint64_t index)
 			other_dim = true;
 		H.push_back(c);
 	}
-	set_params(call_json(T).i("history_length", nh));
+	int other_use	  = (index % 4 == 1) ? 1 : (index % 4 == 3) ? 2 : (index % 8 == 6) ? 3 : 0;
+	unsigned other_sd = (unsigned) rng.below(1u << 30);
+	set_params(call_json(T).i("history_length", nh).i("other_library_use_before", other_use));
 	hash_call(T);
 	if(other_dim || narrow)
 		mark_nontrivial();
@@ -433,13 +477,21 @@ static void case_history(Rng& rng, uint64_t index)
 	Outcome o0 = run_isolated([&](const std::function<void(const std::string&)>& send) { send(obs_blob(run_call(T))); }, 300);
 	// H1: fresh process, after the history
 	Outcome o1 = run_isolated([&](const std::function<void(const std::string&)>& send) {
-		for(const Call& c : H)
-			(void) run_call(c);
+		for(size_t i = 0; i < H.size(); i++)
+		{
+			if(i == H.size() / 2)
+				other_library_use(other_use, other_sd);
+			(void) run_call(H[i]);
+		}
 		send(obs_blob(run_call(T)));
 	}, 600);
 	// and once more in the worker after the same history
-	for(const Call& c : H)
-		(void) run_call(c);
+	for(size_t i = 0; i < H.size(); i++)
+	{
+		if(i == H.size() / 2)
+			other_library_use(other_use, other_sd);
+		(void) run_call(H[i]);
+	}
 	Obs w2 = run_call(T);
 	if(o0.kind == WATCHDOG || o1.kind == WATCHDOG)
 	{
